@@ -155,7 +155,7 @@ impl<'a> Digest<'a> {
                 _ => {}
             }
         }
-        let complete = run.out.end == simrt::End::Complete;
+        let complete = matches!(run.out.end, simrt::End::Complete | simrt::End::Leaked);
         let mut d = Digest {
             run,
             ev,
@@ -265,7 +265,13 @@ impl<'a> Digest<'a> {
                     oc.inv < ret && oc.ret_or_max() > c.inv
                 }
             });
-            if overlaps || self.timer_in_call(c) {
+            // a stop() that gave up after its timeout leaves the store running: neither it nor any
+            // later stop() is a barrier
+            let tainted = sd.shutdowns.iter().any(|&o| {
+                let oc = &self.calls[o];
+                oc.inv < ret && matches!(oc.op, OpK::Stop { .. } | OpK::DropStore { .. }) && self.timer_in_call(oc)
+            });
+            if overlaps || tainted {
                 continue;
             }
             if best.map(|(_, r)| ret < r).unwrap_or(true) {
